@@ -877,6 +877,18 @@ def seed_perturbations(scheme, S0):
             yield '%s[t]=%d' % (ch, v), mod(**{ch: (t, v)})
         if t + 2 < len(c0):
             yield '%s[t+2]=20' % ch, mod(**{ch: (t + 2, 20)})
+        # EVERY entry of the chain array, also far behind the end of the standard chain: garbage there must be refused ...
+        for j in range(t + 1, len(c0)):
+            for v in (1, 20):
+                yield '%s[%d]=%d (behind the chain)' % (ch, j, v), mod(**{ch: (j, v)})
+        # ... and long slowly descending chains that use the whole array (valid or not: the reference decides)
+        for num, den in ((4, 5), (3, 4), (7, 10), (2, 3), (9, 10)):
+            for first in (c0[0], c0[0] - 1):
+                lc = [first]
+                while len(lc) < len(c0) and lc[-1] * num // den >= 17:
+                    lc.append(lc[-1] * num // den + (1 if len(lc) % 2 else 0))
+                lc += [0] * (len(c0) - len(lc))
+                yield '%s=long chain x%d/%d from %d (%d entries)' % (ch, num, den, first, sum(1 for v in lc if v)), mod(**{ch: lc})
         yield '%s=0' % ch, mod(**{ch: [0] * len(c0)})
         yield '%s=0,zi=0' % ch, mod(**{ch: [0] * len(c0), 'zi': [0] * 31})
     # default chains of every level (SeedAdj on an empty seed) and every level with the standard set's chains
